@@ -1452,6 +1452,12 @@ class System:
             return None
 
         if mod.state is ProcessingState.UNPROCESSED:
+            # Like the interpreter, run the __init__ of the enclosing packages first:
+            # they might define the docformat or re-export names of this module.
+            parent = mod.parent
+            if isinstance(parent, Package) and parent.state is ProcessingState.UNPROCESSED:
+                self.getProcessedModule(parent.fullName())
+        if mod.state is ProcessingState.UNPROCESSED:
             self.processModule(mod)
 
         assert mod.state in (ProcessingState.PROCESSING, ProcessingState.PROCESSED), mod.state
